@@ -155,7 +155,7 @@ def worker(job):
     stats = vlib.Stats()
     r = Runner(tree, "%s-%s" % (profile, wid))
 
-    def record(sc, res):
+    def record(sc, res, tags=tags):
         if res.inconclusive:
             stats.inconclusive += 1
             return None
@@ -226,12 +226,17 @@ def sweep_modes(r, sc, sweep, record):
                 "ftruncate": [errno.EIO]}.get(cls, [])
         for er in errs:
             sites.append({"kind": "fault", "key": e["key"], "cls": cls, "k": k, "err": str(er)})
+    if sweep.get("fault_classes"):
+        # only faults of these classes, only in the daemon itself (e.g. C15: a failing read-only open at the start of a pass)
+        sites = [x for x in sites if x["cls"] in sweep["fault_classes"] and x["key"].endswith("qmail-send")]
     sel = []
     if sweep.get("crash_kept"):
         plans = [p for p in plans if p["image"] == "kept" and p["key"] != "send.qmail-queue"]
         sweep = dict(sweep, crash=sweep["crash_kept"])
     if sweep.get("faults_only"):
         plans = []
+    if sweep.get("crashes_only"):
+        sites = []
     if sweep.get("kept_only"):
         plans = [p for p in plans if p["image"] == "kept"]
     if sweep.get("all"):
@@ -247,7 +252,8 @@ def sweep_modes(r, sc, sweep, record):
         sc2 = dict(sc)
         sc2["mode"] = mode
         res = r.run(sc2)
-        v = record(sc2, res)
+        # under an injected fault or crash only the clauses named in sweep["tags"] are judged (default: the property's own tag)
+        v = record(sc2, res, tuple(sweep["tags"])) if sweep.get("tags") else record(sc2, res)
         if v:
             return v + " | mode=%s" % json.dumps(mode)
     return None
